@@ -153,7 +153,14 @@ def _case(rng, cls, method, n, order):
             opts['step_nom'] = float(rng.choice([1.0, 0.5, 3.0]))
         if rng.random() < 0.2:
             opts['scale'] = float(rng.uniform(1.5, 10))
-    return dict(cls=cls, method=method, n=n, order=order, shape=shape, x=x, src=src, opts=opts,
+    hist = None
+    if rng.random() < 0.3 and cls != 'Hessian':
+        # another (method, order) the object was used with before; for multicomplex n <= 2 is required both ways
+        m0 = str(rng.choice(['central', 'forward', 'backward', 'complex'] + (['multicomplex'] if n <= 2 else [])))
+        if method == 'multicomplex' and cls == 'Derivative' and n > 2:
+            m0 = method
+        hist = dict(method=m0 if rng.random() < 0.7 else method, order=int(rng.integers(1, 9)))
+    return dict(cls=cls, method=method, n=n, order=order, shape=shape, x=x, src=src, opts=opts, history=hist,
                 vector_f=bool(cls == 'Jacobian' and rng.random() < 0.6), fseed=int(rng.integers(0, 1000)))
 
 
@@ -198,7 +205,29 @@ def run_case(case, ctx):
     x_keep = np.array(x, copy=True)
     try:
         with np.errstate(all='ignore'):
-            getattr(nd, cls)(rec, **kw)(x)
+            hist = case.get('history')
+            if hist and cls != 'Hessian':
+                # the object reaches the configuration through its setters after having been used with another one
+                kw0 = dict(kw)
+                kw0['method'] = hist['method']
+                if 'order' in kw0:
+                    kw0['order'] = hist['order']
+                obj = getattr(nd, cls)(rec, **kw0)
+                try:
+                    obj(x)
+                except Exception:
+                    pass
+                if 'order' in kw0 and hist['order'] != order:
+                    obj.order = order
+                if hist['method'] != method:
+                    obj.method = method
+                del rec.calls[:]
+                del _steps_seen[:]
+                _state['diff'] = None
+                ctx.count('configuration_reached_through_setters')
+                obj(x)
+            else:
+                getattr(nd, cls)(rec, **kw)(x)
     except ValueError as exc:
         # too few steps for the rule etc.: legitimate refusals; the calls made so far are still checked
         ctx.count('library_raised_ValueError(points seen so far still checked)')
